@@ -15,6 +15,12 @@
 (*               server; the packet counters of both servers afterwards    *)
 (*               => ninj = 1, nsent = datagrams received by A and by B     *)
 (*   k = "stage": per-stage totals of the listeners' log lines (strict only)*)
+(*   k = "anc":   how often the listeners of one configuration logged that  *)
+(*               no receive timestamp came with a datagram (strict only)    *)
+(*   Circumstances of a case (Listener.tla 3a, 3b): R.conf = how the        *)
+(*   addressed listener was started => conf; R.store = the class the        *)
+(*   driver put the store into before the case (R.pre: what an inspection   *)
+(*   found) => store; R.il, R.anc => fields of the request datagram.        *)
 (*   monitor (ListenerTrace_mon.cfg): the PROPERTY SECTION of Listener     *)
 (*   strict  (ListenerTrace_strict.cfg): the record is what Listener's     *)
 (*           pipeline and reply construction compute                       *)
@@ -28,7 +34,10 @@ Vias      == {}
 MaxInject == 0
 Spoof     == FALSE
 RestoreAtTop == TRUE
-VARIABLES draft, net, hist, nsent, ninj, blen, l
+Confs     == {"sw", "hw"}
+Stores    == {}
+Ancs      == {}
+VARIABLES draft, net, hist, nsent, ninj, blen, conf, store, l
 INSTANCE Listener
 
 Trace == ndJsonDeserialize("trace.ndjson")
@@ -36,18 +45,23 @@ N == Len(Trace)
 
 \* the request as sent
 \* (records of IP cases carry no "sc" field)
-DOf(R) == Dgram(R.tp, R.src, R.dst, IF R.tp = "scion" THEN R.sc ELSE NoSc, Payload(R.b0, R.len, R.tr))
+DOf(R) == [Dgram(R.tp, R.src, R.dst, IF R.tp = "scion" THEN R.sc ELSE NoSc, Payload(R.b0, R.len, R.tr))
+           EXCEPT !.il = R.il, !.anc = R.anc]
 \* a datagram as received back
 OOf(R, o) == Dgram(R.tp, o.src, o.dst, IF R.tp = "scion" THEN o.sc ELSE NoSc, [b0 |-> o.b0, len |-> o.len, tr |-> o.tr, st |-> o.st])
 EvOf(R) == [srv |-> R.srv, d |-> DOf(R), out |-> [i \in DOMAIN R.out |-> OOf(R, R.out[i])]]
 \* the sentinel: same addressing, version 4 / mode 3, 48 bytes or a valid NTS request
 SentinelB0 == LVM(0, 4, 3)
-SEvOf(R) == [srv |-> R.srv,
-             d   |-> Dgram(R.tp, R.src, R.dst, IF R.tp = "scion" THEN R.sc ELSE NoSc, Payload(SentinelB0, R.slen, R.str)),
-             out |-> [i \in DOMAIN R.sout |-> OOf(R, R.sout[i])]]
+SDOf(R) == [Dgram(R.tp, R.src, R.dst, IF R.tp = "scion" THEN R.sc ELSE NoSc, Payload(SentinelB0, R.slen, R.str))
+            EXCEPT !.anc = R.anc]
+SEvOf(R) == [srv |-> R.srv, d |-> SDOf(R), out |-> [i \in DOMAIN R.sout |-> OOf(R, R.sout[i])]]
+\* the store of the addressed server when the case arrives ("asis": not
+\* inspected; nothing Listener.tla computes for these cases depends on it)
+PreOf(R) == IF R.store = "asis" THEN EmptyStore ELSE StoreInClass(R.store, CID(DOf(R)))
 
 TInit == /\ l = 0 /\ draft = Idle /\ net = << >> /\ hist = << >> /\ nsent = 0 /\ ninj = 0
          /\ blen = [x \in Servers \X {"ip", "scion"} |-> BufCap(x[2])]
+         /\ conf = [s \in Servers |-> "sw"] /\ store = [s \in Servers |-> EmptyStore]
 TNext ==
   /\ \E j \in 1 .. 16 : l' = 16 * l + j /\ l' <= N
   /\ LET R == Trace[l']
@@ -56,8 +70,13 @@ TNext ==
         ELSE IF R.k = "pair"
         THEN hist' = << >> /\ ninj' = 1 /\ nsent' = R.arecv + R.brecv
         ELSE hist' = << >> /\ ninj' = 0 /\ nsent' = 0
+  /\ LET R == Trace[l']
+     IN IF R.k = "case"
+        THEN /\ conf' = [s \in Servers |-> IF s = R.srv THEN R.conf ELSE "sw"]
+             /\ store' = [s \in Servers |-> IF s = R.srv THEN PreOf(R) ELSE EmptyStore]
+        ELSE conf' = [s \in Servers |-> "sw"] /\ store' = [s \in Servers |-> EmptyStore]
   /\ UNCHANGED <<draft, net, blen>>
-TSpec == TInit /\ [][TNext]_<<draft, net, hist, nsent, ninj, blen, l>>
+TSpec == TInit /\ [][TNext]_<<draft, net, hist, nsent, ninj, blen, conf, store, l>>
 
 R == Trace[l]
 IsCase == l > 0 /\ R.k = "case"
@@ -77,11 +96,33 @@ MCounted == IsCase => (R.n = Len(R.out) /\ R.sn = Len(R.sout))
 MRawReverse == IsCase => ((\A i \in DOMAIN R.out : R.out[i].raw_ok) /\ (\A i \in DOMAIN R.sout : R.sout[i].raw_ok))
 
 \* -------------------------------------------------------------- strict
-SReplies == IsCase => \A k \in DOMAIN hist : hist[k].out = Replies(hist[k].srv, hist[k].d)
-SPredicted == IsCase => (R.exp = Len(Replies(R.srv, DOf(R))) /\ R.drop = DropStage(R.srv, DOf(R)))
-\* basic-mode origin echo, nothing else came back
-SEcho  == IsCase => \A i \in DOMAIN R.out : R.out[i].echo
+\* with the whole receive buffer and what the addressed listener's configuration
+\* makes of the ancillary data
+SReplies == IsCase => \A k \in DOMAIN hist :
+               hist[k].out = RepliesB(hist[k].srv, hist[k].d, BufCap(hist[k].d.tp), AncAt(conf[hist[k].srv], hist[k].d.anc))
+SPredicted == IsCase => (/\ R.exp = Len(RepliesB(R.srv, DOf(R), BufCap(R.tp), AncAt(R.conf, R.anc)))
+                         /\ R.drop = DropStageB(R.srv, DOf(R), BufCap(R.tp), AncAt(R.conf, R.anc)))
+\* the reply's origin timestamp repeats the field of the request that handleRequest
+\* picks for the store it finds (basic mode: transmit; interleaved: receive);
+\* nothing else came back
+SEcho  == IsCase => (/\ \A i \in DOMAIN R.out : R.out[i].org = ReplyOrigin(PreOf(R), DOf(R))
+                     /\ \A i \in DOMAIN R.sout : R.sout[i].org = "tx")
 SOther == IsCase => R.other = 0
+\* cases with a store class: the inspection before the case found the class, and
+\* the client's record after the case and the sentinel have been served is the
+\* one handleRequest / updateTXTimestamp leave behind
+SStorePre == (IsCase /\ R.obs) =>
+  LET cl == ClassOf(R.store)
+  IN R.pre.k = cl.k /\ R.pre.full = cl.full /\ R.pre.fill = cl.fill
+SStorePost == (IsCase /\ R.obs /\ R.post_k >= 0) =>
+  LET d  == DOf(R)
+      s0 == store[R.srv]
+      s1 == IF Accepts(R.srv, d) THEN ServeStore(s0, d, R.conf) ELSE s0
+      s2 == ServeStore(s1, SDOf(R), R.conf)
+  IN R.post_k = s2.rec[CID(d)]
+\* k = "anc": a listener started with an interface name finds no receive
+\* timestamp next to any datagram
+SAnc == (l > 0 /\ R.k = "anc" /\ R.conf = "hw") => R.logged = R.predicted
 \* k = "stage": how often the listeners' own log named a stage of the pipeline
 \* during the case phase, against how often DropStage predicted it
 SStage == (l > 0 /\ R.k = "stage") => R.logged = R.predicted
